@@ -95,6 +95,35 @@ SY = """	if syns := strings.Split(synopsis, " "); strings.EqualFold(f.Name, syns
 		return strings.Join(syns[1:], " ")
 	}
 """
+
+CDIR = """		home := os.Getenv("HOME")
+		if home == "" {
+			// a relative ".magefile" would put the compiled binaries into the
+			// directory mage is run in
+			return filepath.Join(os.TempDir(), ".magefile")
+		}
+		return filepath.Join(home, ".magefile")
+"""
+HCP = """	if pkg.Name != "context" {
+		return false, nil
+	}
+	if sel.Sel.Name != "Context" {
+		return false, nil
+	}
+	if len(param.Names) > 1 {
+		// something like foo, bar context.Context
+		return false, errors.New("ETOOMANYCONTEXTS")
+	}
+	return true, nil
+"""
+HER = """	if res.NumFields() > 1 {
+		return false, errors.New("ETOOMANYRETURNS")
+	}
+	ret := res.List[0]
+	if len(ret.Names) > 1 {
+		return false, errors.New("ETOOMANYERRORS")
+	}
+"""
 # (id, kind S=semantic H=harmless, item names, file, old, new, expected coverage value prefix)
 MUTANTS = [
     ("joinArgs-S1 b before a", "S", ["joinArgs"], "sh/cmd.go", JA, "\tout := make([]string, 0, len(a)+len(b))\n\tout = append(out, b...)\n\treturn append(out, a...)\n", "differs"),
@@ -179,6 +208,21 @@ MUTANTS = [
     ("sanitizeSynopsis-S1 exact comparison of the first word", "S", ["sanitizeSynopsis"], "parse/parse.go", SY, SY.replace("strings.EqualFold(f.Name, syns[0])", "f.Name == syns[0]"), "differs"),
     ("sanitizeSynopsis-S2 two words dropped", "S", ["sanitizeSynopsis"], "parse/parse.go", SY, SY.replace("syns[1:]", "syns[2:]").replace("strings.EqualFold(f.Name, syns[0])", "len(syns) > 2 && strings.EqualFold(f.Name, syns[0])"), "differs"),
     ("sanitizeSynopsis-H1 locals", "H", ["sanitizeSynopsis"], "parse/parse.go", SY, "\twords := strings.Split(synopsis, \" \")\n\tfirst := words[0]\n\tif strings.EqualFold(f.Name, first) {\n\t\trest := words[1:]\n\t\treturn strings.Join(rest, \" \")\n\t}\n", "proved"),
+    # ---- fourth batch
+    ("mg.runtime-S1 Verbose reads MAGEFILE_DEBUG", "S", ["mg.runtime"], "mg/runtime.go", "\tb, _ := strconv.ParseBool(os.Getenv(VerboseEnv))", "\tb, _ := strconv.ParseBool(os.Getenv(DebugEnv))", "differs"),
+    ("mg.runtime-S2 any non-empty MAGEFILE_HASHFAST counts", "S", ["mg.runtime"], "mg/runtime.go", "\tb, _ := strconv.ParseBool(os.Getenv(HashFastEnv))\n\treturn b", "\treturn os.Getenv(HashFastEnv) != \"\"", "differs"),
+    ("mg.runtime-S3 GoCmd without default", "S", ["mg.runtime"], "mg/runtime.go", "\treturn \"go\"\n", "\treturn \"\"\n", "differs"),
+    ("mg.runtime-S4 CacheDir ignores MAGEFILE_CACHE", "S", ["mg.runtime"], "mg/runtime.go", "\tif d != \"\" {\n\t\treturn d\n\t}\n", "\t_ = d\n", "differs"),
+    ("mg.runtime-S5 CacheDir relative without HOME (the tree before 293a481)", "S", ["mg.runtime"], "mg/runtime.go", CDIR, "\t\treturn filepath.Join(os.Getenv(\"HOME\"), \".magefile\")\n", "differs"),
+    ("mg.runtime-H1 Verbose with explicit error test", "H", ["mg.runtime"], "mg/runtime.go", "\tb, _ := strconv.ParseBool(os.Getenv(VerboseEnv))\n\treturn b", "\tv := os.Getenv(VerboseEnv)\n\tb, err := strconv.ParseBool(v)\n\tif err != nil {\n\t\treturn false\n\t}\n\treturn b", "proved"),
+    ("mg.runtime-H2 CacheDir with if instead of switch", "H", ["mg.runtime"], "mg/runtime.go", "\tswitch runtime.GOOS {\n\tcase \"windows\":\n\t\treturn filepath.Join(os.Getenv(\"HOMEDRIVE\"), os.Getenv(\"HOMEPATH\"), \"magefile\")\n\tdefault:\n" + CDIR + "\t}\n", "\tif runtime.GOOS == \"windows\" {\n\t\treturn filepath.Join(os.Getenv(\"HOMEDRIVE\"), os.Getenv(\"HOMEPATH\"), \"magefile\")\n\t}\n\tbase := os.Getenv(\"HOME\")\n\tif base == \"\" {\n\t\tbase = os.TempDir()\n\t}\n\treturn filepath.Join(base, \".magefile\")\n", "proved"),
+    ("signature-S1 any package's Context counts", "S", ["signature"], "parse/parse.go", HCP, HCP.replace("\tif pkg.Name != \"context\" {\n\t\treturn false, nil\n\t}\n", "\t_ = pkg\n"), "differs"),
+    ("signature-S2 two names for the context accepted", "S", ["signature"], "parse/parse.go", HCP, HCP.replace("len(param.Names) > 1", "len(param.Names) > 2"), "differs"),
+    ("signature-S3 (error, error) accepted: field count instead of NumFields", "S", ["signature"], "parse/parse.go", HER, HER.replace("res.NumFields() > 1", "len(res.List) > 1").replace("len(ret.Names) > 1", "len(ret.Names) > 2"), "differs"),
+    ("signature-S4 any single result accepted as error", "S", ["signature"], "parse/parse.go", "\tif fmt.Sprint(ret.Type) == \"error\" {\n\t\treturn true, nil\n\t}\n\treturn false, errors.New(\"EBADRETURNTYPE\")", "\tif fmt.Sprint(ret.Type) != \"\" {\n\t\treturn true, nil\n\t}\n\treturn false, errors.New(\"EBADRETURNTYPE\")", "differs"),
+    ("signature-S5 hasVoidReturn counts fields, nil list dereferenced away", "S", ["signature"], "parse/parse.go", "\treturn res.NumFields() == 0\n", "\treturn res.NumFields() <= 1\n", "differs"),
+    ("signature-H1 context test as one condition", "H", ["signature"], "parse/parse.go", HCP, "\tif pkg.Name != \"context\" || sel.Sel.Name != \"Context\" {\n\t\treturn false, nil\n\t}\n\tif n := len(param.Names); n >= 2 {\n\t\treturn false, errors.New(\"more than one context parameter\")\n\t}\n\treturn true, nil\n", "proved"),
+    ("signature-H2 error test first, other messages", "H", ["signature"], "parse/parse.go", HER, "\tif n := res.NumFields(); n >= 2 {\n\t\treturn false, errors.New(\"too many results\")\n\t}\n\tret := res.List[0]\n\tif len(ret.Names) >= 2 {\n\t\treturn false, errors.New(\"too many names\")\n\t}\n", "proved"),
 ]
 
 
